@@ -849,9 +849,17 @@ def o_barrier(w, tr):
 def o_isolation(w, tr):
     """C18: a transfer that was neither faulted nor cancelled succeeds."""
     out = []
+    victims = set(w.scn.get('victims', ()))
+    if w.sched.outcome == 'deadlock' and len(w.transfers) > 1 and tr.first_step('user.shutdown_called') is None:
+        # the user waits for the results one by one and blocks forever: a transfer of the mix never finishes
+        stuck = [i['idx'] for i in w.transfers if i['idx'] not in w.outcomes]
+        if stuck:
+            out.append(('C18:transfer-of-the-mix-never-finishes',
+                        f'transfers {stuck} never finished (victims of faults/cancels in this scenario: {sorted(victims)}); '
+                        f'blocked: {w.sched.outcome_detail}'))
+        return out
     if w.sched.outcome != 'ok':
         return out
-    victims = set(w.scn.get('victims', ()))
     for info in w.transfers:
         idx = info['idx']
         if idx in victims:
